@@ -177,6 +177,14 @@ func ZZ_C08() {
 		zzrt.Assert(t.gen[root.ID] == 2, "C08:harness-root-not-restarted")
 		zzrt.Reach("parent-restarted-with-children")
 	}
+	if mode == 4 && zzrt.Choose(2) == 1 {
+		// "make sure my worker exists": the parent spawns a child id that is already alive - nothing changes,
+		// the live child stays listed and is taken down with the parent
+		e.Send(root, zzRespawn{K: 0})
+		zzrt.Quiesce()
+		zzrt.Assert(t.gen[t.kids[root.ID][0].ID] == 1, "C10:duplicate-spawn-ran-its-producer")
+		zzrt.Reach("duplicate-spawn-of-a-live-child")
+	}
 	zzrt.Assert(!t.wrongPar, "C08:Parent-does-not-name-the-spawning-actor")
 
 	if mode == 2 {
